@@ -5,19 +5,22 @@ PROP = "C05"
 
 
 def run(tier):
+    QUICK_CFGS = lambda: vfsrun.cfgs([5], [0, 3], range(8)) + vfsrun.cfgs([5], [2], [0, 7]) + vfsrun.cfgs([0], [3], [3, 7]) + vfsrun.cfgs([1, 8], [3], [6]) + \
+                   vfsrun.cfgs([5], [1], [7]) + vfsrun.cfgs([5], [3], [7], shapes=(1, 2))
+    extra = []
     if tier == "quick":
-        cfgs = vfsrun.cfgs([5], [0, 3], range(8)) + vfsrun.cfgs([5], [2], [0, 7]) + vfsrun.cfgs([0], [3], [3, 7]) + vfsrun.cfgs([1, 8], [3], [6]) + \
-               vfsrun.cfgs([5], [1], [7]) + vfsrun.cfgs([5], [3], [7], shapes=(1, 2))
+        cfgs = QUICK_CFGS()
         depth = 4
         deep = (vfsrun.cfgs([5], [0, 3], range(8)) + vfsrun.cfgs([0], [0], [1, 2, 3, 7]), 6)
         longs, writes = vfsrun.cfgs([1], [0], [4, 6]), (12,)
     else:
         cfgs = vfsrun.cfgs([0, 1, 5, 8], [0, 1, 2, 3], range(8)) + vfsrun.cfgs([5], [3], [0, 3, 7], shapes=(1, 2)) + vfsrun.cfgs([5], [0, 3], range(8), ticks=(1,))
-        depth = 5
+        depth = 4
+        extra = [(QUICK_CFGS(), 5)]      # depth 5 on the quick configuration set, depth 4 on the full set: sized to finish (see vfsrun.DEADLINE)
         deep = (vfsrun.cfgs([1, 5], [0, 2, 3], range(8)) + vfsrun.cfgs([0], [0, 3], [1, 2, 3, 5, 6, 7]), 7)
         longs, writes = vfsrun.cfgs([1], [0, 12], [0, 4, 6]), (12, 102)
     return vfsrun.hist_check(
-        PROP, tier, cfgs, depth,
+        PROP, tier, cfgs, depth, extra_groups=extra,
         rule="every operation history up to the depth bound (normal form: no D;D, no R;R) over writes of framed size {1,L-1,L,L+1,L+2} (or {1,3,6} without a size limit), "
              "records with 2-byte UTF-8 characters and an embedded LF, day changes of 1-2 days and sink restarts, replayed on the real RotatingFileSink from an empty "
              "directory (plus look-alike foreign files); after EVERY operation the directory is read back (gzip decoded by zlib) and compared with the written byte stream: "
